@@ -1,9 +1,20 @@
 """One Python process in which a whole history of Dippy calls is executed (C18).
 
-stdin : {"src": <repo>/src, "history": [query...], "final": [query...], "snapshot": bool}
-stdout: {"answers": [...for the final queries...], "loads": [[module, hit]...] per call of _load_handler,
+stdin : {"src": <repo>/src, "argv": [...], and either
+           "history": [query...], "final": [query...], "snapshot": bool, "watch": [file...]   (a history, then the query;
+                                          "growth": per final query, what it appended to each watched file)
+         or "pool": [query...], "seq": [pool index...], "residue": bool, "share_config": bool (a walk over a pool)
+         or "forkpool": [query...], "watch": [file...]   (each query in its own child forked before anything was analysed;
+                                          with watch every answer is [answer, growth of the watched files])}
+stdout, history form:
+        {"answers": [...for the final queries...], "loads": [[module, hit]...] per call of _load_handler,
          "loads_per_query": [n...], "cache_info": [hits, misses, maxsize, currsize], "state": {...},
-         "changed": [[module, name, before, after]...]}
+         "changed": [[path, before, after, detail]...]  (harness/c18_state.py: whole history)}
+stdout, pool form:
+        {"seen": {pool index: [[answer, first position, count]...]},       every distinct answer an item ever got
+         "residue": [[position, pool index, [[path, before, after, detail]...]]...]   per analysis, when asked for,
+         "steps": [[[handler module asked for...], answer]...]                         per analysis, when residue is asked for,
+         "shims": [labels of the functools caches found], "snap_ms": average cost of a snapshot, "state": {...}}
 Queries:
   {"k": "analyze", "command", "config", "cwd", "remote"}   analyzer.analyze -> [action, reason]
   {"k": "main", "stdin"}                                     dippy.main() with stdin/stdout replaced -> stdout text
@@ -11,89 +22,57 @@ Queries:
   {"k": "setmode", "mode"}                                   dippy.MODE = mode
   {"k": "configure", "log", "full"}                          config.configure_logging
   {"k": "log_decision"}                                      config.log_decision("allow", "x", command="x")
+  {"k": "log_call", "decision", "cmd", "rule", "message", "command"}   config.log_decision with those arguments
+  {"k": "fs", "op": rmdir|mkdir|unlink, "path"}              the file system changes between two calls
+With share_config the Config object of a config text is parsed once and handed to every analysis that uses
+that text (what a long-lived caller does); it is then one of the snapshot roots (`input:config[i]`).
 """
 import contextlib
 import io
 import json
+import os
 import sys
-import types
+import time
 
 job = json.loads(sys.stdin.read())
 sys.path.insert(0, job["src"])
 sys.argv = ["dippy-hook"] + job.get("argv", [])
+sys.path.insert(1, os.path.dirname(os.path.abspath(__file__)))
 
 import dippy.cli as cli  # noqa: E402
 import dippy.core.analyzer as analyzer  # noqa: E402
 import dippy.core.config as config  # noqa: E402
 import dippy.dippy as hook  # noqa: E402
-import dippy.vendor.parable as parable  # noqa: E402
+import dippy.vendor.parable as parable  # noqa: E402,F401
 from pathlib import Path  # noqa: E402
+
+import c18_state as st  # noqa: E402
 
 assert cli.__file__.startswith(job["src"]), cli.__file__
 
-loads = []
-real_load = cli._load_handler
+shims = st.install_shims()
+LOADER = "cli:_load_handler"
 
 
-def shim(module_name):
-    before = real_load.cache_info().hits
-    r = real_load(module_name)
-    loads.append([module_name, real_load.cache_info().hits > before])
-    return r
+def loads():
+    return [[c[1], c[2]] for c in st.CALLS if c[0] == LOADER]
 
 
-shim.cache_info = real_load.cache_info
-cli._load_handler = shim
-
-
-def fingerprint(v, depth=0):
-    if isinstance(v, (str, int, float, bool, bytes, type(None))):
-        return repr(v)
-    if isinstance(v, (list, tuple)):
-        if depth > 3:
-            return f"<{type(v).__name__} len {len(v)}>"
-        return type(v).__name__ + "[" + ",".join(fingerprint(x, depth + 1) for x in v) + "]"
-    if isinstance(v, (set, frozenset)):
-        return type(v).__name__ + "{" + ",".join(sorted(fingerprint(x, depth + 1) for x in v)) + "}"
-    if isinstance(v, dict):
-        if depth > 3:
-            return f"<dict len {len(v)}>"
-        return "dict{" + ",".join(sorted(fingerprint(k, depth + 1) + ":" + fingerprint(x, depth + 1) for k, x in v.items())) + "}"
-    if isinstance(v, (types.FunctionType, types.BuiltinFunctionType, type, types.ModuleType)):
-        return f"<{type(v).__name__} {getattr(v, '__name__', '?')} @{id(v)}>"
-    if hasattr(v, "__dict__") and depth <= 3:
-        return f"<{type(v).__name__} " + fingerprint(vars(v), depth + 1) + ">"
-    return f"<{type(v).__name__}>"
-
-
-def snapshot():
-    mods = {"analyzer": analyzer, "cli": cli, "config": config, "dippy": hook, "parable": parable}
-    for name, m in list(sys.modules.items()):
-        if name.startswith("dippy.") and m is not None and name not in ("dippy.cli", "dippy.core.analyzer", "dippy.core.config",
-                                                                       "dippy.dippy", "dippy.vendor.parable"):
-            mods[name] = m
-    out = {}
-    for mn, m in mods.items():
-        for k, v in list(vars(m).items()):
-            if k.startswith("__") and k.endswith("__"):
-                continue
-            out[f"{mn}:{k}"] = fingerprint(v)
-    # class attributes of the classes defined in the five main modules (dataclass defaults etc.)
-    for mn in ("analyzer", "cli", "config", "dippy"):
-        for k, v in list(vars(mods[mn]).items()):
-            if isinstance(v, type) and getattr(v, "__module__", "").startswith("dippy"):
-                for a, av in list(vars(v).items()):
-                    if not (a.startswith("__") and a.endswith("__")) and not callable(av):
-                        out[f"{mn}:{k}.{a}"] = fingerprint(av)
-    return out
-
-
-cfg_cache = {}
+shared = {}
+share_config = bool(job.get("share_config"))
 
 
 def cfg(text):
-    # parse afresh every time: the Config object is an explicit argument, not process state
-    return config.parse_config(text)
+    if not share_config:
+        # parse afresh every time: the Config object is an explicit argument, not process state
+        return config.parse_config(text)
+    if text not in shared:
+        shared[text] = config.parse_config(text)
+    return shared[text]
+
+
+def roots():
+    return {f"input:config[{i}]": c for i, c in enumerate(shared.values())}
 
 
 def run(q):
@@ -123,31 +102,142 @@ def run(q):
     if k == "log_decision":
         config.log_decision("allow", "x", command="x")
         return None
+    if k == "log_call":          # config.log_decision with any subset of its optional arguments
+        kw = {n: q[n] for n in ("rule", "message", "command") if q.get(n) is not None}
+        config.log_decision(q["decision"], q["cmd"], **kw)
+        return None
+    if k == "fs":                # the file system changes under the process (a transient fault comes or goes)
+        {"rmdir": os.rmdir, "mkdir": os.mkdir, "unlink": os.unlink}[q["op"]](q["path"])
+        return None
     raise ValueError(k)
 
 
-before = snapshot() if job.get("snapshot") else None
+def state():
+    return {"MODE": hook.MODE, "explicit": hook._EXPLICIT_MODE, "log_config": config._log_config is not None,
+            "log_disabled": config._log_disabled}
+
+
+def cache_info():
+    real = getattr(cli._load_handler, "__c18_real__", cli._load_handler)
+    ci = real.cache_info()
+    return [ci.hits, ci.misses, ci.maxsize, ci.currsize]
+
+
+watch = job.get("watch") or []
+
+
+def sizes():
+    out = []
+    for p in watch:
+        try:
+            out.append(os.path.getsize(p) if os.path.isfile(p) else 0)
+        except OSError:
+            out.append(0)
+    return out
+
+
+def grown(s0):
+    g = []
+    for i, (a, b) in enumerate(zip(s0, sizes())):
+        if b > a:
+            with open(watch[i], "rb") as f:
+                f.seek(a)
+                g.append([i, a, b, f.read().decode("utf-8", "replace")])
+        elif b < a:
+            g.append([i, a, b, ""])      # truncated, removed or replaced
+    return g
+
+
+if "forkpool" in job:
+    # every query in its own child forked from this process, which has imported dippy and analysed nothing
+    answers = []
+    for q in job["forkpool"]:
+        r, w = os.pipe()
+        pid = os.fork()
+        if pid == 0:
+            try:
+                os.close(r)
+                s0 = sizes()
+                a = run(q)
+                data = json.dumps([a, grown(s0)] if watch else a).encode()
+                os.write(w, data)
+            finally:
+                os._exit(0)
+        os.close(w)
+        buf = b""
+        while True:
+            chunk = os.read(r, 1 << 16)
+            if not chunk:
+                break
+            buf += chunk
+        os.close(r)
+        os.waitpid(pid, 0)
+        answers.append(json.loads(buf.decode()) if buf else ["?", "child failed"])
+    print(json.dumps({"answers": answers}))
+    sys.exit(0)
+
+if "pool" in job:
+    pool = job["pool"]
+    seen = {}
+    residue = []
+    snap_s, snaps = 0.0, 0
+    prev = None
+    if job.get("residue"):
+        if share_config:
+            for q in pool:                      # the shared objects exist before the first snapshot
+                if "config" in q:
+                    cfg(q["config"])
+        prev = st.snapshot(roots())
+    steps = []
+    for pos, idx in enumerate(job["seq"]):
+        n0 = len(st.CALLS)
+        a = run(pool[idx])
+        if prev is not None:
+            steps.append([[c[1] for c in st.CALLS[n0:] if c[0] == LOADER], a])
+        key = json.dumps(a, sort_keys=True)
+        e = seen.setdefault(idx, {})
+        if key in e:
+            e[key][2] += 1
+        else:
+            e[key] = [a, pos, 1]
+        if prev is not None:
+            t0 = time.time()
+            cur = st.snapshot(roots())
+            snap_s += time.time() - t0
+            snaps += 1
+            d = st.diff(prev, cur)
+            if d:
+                residue.append([pos, idx, d[:40]])
+            prev = cur
+    print(json.dumps({"seen": {str(i): list(e.values()) for i, e in seen.items()}, "residue": residue, "steps": steps, "shims": shims,
+                      "snap_ms": round(1000 * snap_s / snaps, 2) if snaps else None, "state": state(),
+                      "cache_info": cache_info(), "paths": len(prev.fp) if prev is not None else None}))
+    sys.exit(0)
+
+if share_config:
+    for q in job["history"] + job["final"]:     # the shared objects exist before the first snapshot
+        if "config" in q:
+            cfg(q["config"])
+before = st.snapshot(roots()) if job.get("snapshot") else None
 per_query = []
 for q in job["history"]:
-    n0 = len(loads)
+    n0 = len(st.CALLS)
     run(q)
-    per_query.append(len(loads) - n0)
+    per_query.append(len([c for c in st.CALLS[n0:] if c[0] == LOADER]))
 answers = []
+growth = []
+
 for q in job["final"]:
-    n0 = len(loads)
+    n0 = len(st.CALLS)
+    s0 = sizes()
     answers.append(run(q))
-    per_query.append(len(loads) - n0)
+    per_query.append(len([c for c in st.CALLS[n0:] if c[0] == LOADER]))
+    if watch:
+        growth.append(grown(s0))
 changed = []
 if before is not None:
-    after = snapshot()
-    for k in sorted(set(before) | set(after)):
-        if before.get(k) != after.get(k):
-            changed.append([k, (before.get(k) or "<absent>")[:200], (after.get(k) or "<absent>")[:200]])
-ci = real_load.cache_info()
+    changed = st.diff(before, st.snapshot(roots()))[:60]
 print(json.dumps({
-    "answers": answers, "loads": loads, "loads_per_query": per_query,
-    "cache_info": [ci.hits, ci.misses, ci.maxsize, ci.currsize],
-    "state": {"MODE": hook.MODE, "explicit": hook._EXPLICIT_MODE, "log_config": config._log_config is not None,
-              "log_disabled": config._log_disabled},
-    "changed": changed,
+    "answers": answers, "loads": loads(), "loads_per_query": per_query,
+    "cache_info": cache_info(), "state": state(), "changed": changed, "shims": shims, "growth": growth,
 }))
